@@ -25,7 +25,11 @@ DEF_LEAF5 = ('Cmd(%s, << Grp("{", << Cmd(%s, <<>>) >>, <<>>), Grp("[", << T(%s) 
              % (S('newcommand'), S('nm'), S('1'), S('begin'), S('e'), S('#1')))
 DEF_LEAF6 = ('Cmd(%s, << Grp("{", << Cmd(%s, <<>>) >>, <<>>), Grp("{", << Grp("{", << Cmd(%s, << Grp("{", << T(%s) >>, <<>>) >>) >>, <<>>) >>, <<>>) >>)'
              % (S('newcommand'), S('nm'), S('begin'), S('e')))      # \newcommand{\nm}{{\begin{e}}}: the definition mode reaches into a nested brace group
-DEF_LEAVES = [DEF_LEAF, DEF_LEAF2, DEF_LEAF3, DEF_LEAF4, DEF_LEAF5, DEF_LEAF6]
+DEF_LEAF7 = ('Cmd(%s, << Grp("{", << Cmd(%s, <<>>) >>, <<>>), Grp("{", << Cmd(%s, <<>>) >>, <<>>) >>)'
+             % (S('newcommand'), S('nm'), S('textbf')))       # \newcommand{\nm}{\textbf}: a signature command without argument before the closing brace
+DEF_LEAF8 = ('Cmd(%s, << Grp("{", << T(%s) >>, <<>>), Grp("{", << Cmd(%s, << Grp("{", << T(%s) >>, <<>>) >>) >>, <<>>), Grp("{", << Cmd(%s, << Grp("{", << T(%s) >>, <<>>) >>) >>, <<>>) >>)'
+             % (S('newenvironment'), S('f'), S('begin'), S('e'), S('end'), S('e')))       # \newenvironment{f}{\begin{e}}{\end{e}}
+DEF_LEAVES = [DEF_LEAF, DEF_LEAF2, DEF_LEAF3, DEF_LEAF4, DEF_LEAF5, DEF_LEAF6, DEF_LEAF7, DEF_LEAF8]
 
 
 def leaf_cmd(name, *groups):
